@@ -15,7 +15,7 @@ func init() {
 		ID:      "C05",
 		Level:   "exploration",
 		Workers: 16,
-		Rule: "seeded scenarios over the real service (direct mode): 1-6 MANUALLY clients, 1-3 datatypes out of a pool of keys and types, entry modes create / subscribe / subscribe-or-create, steps {open a datatype (late join), local operation, Sync of one client with all its datatypes in one message}; monitors: checkpoint monotonicity after every ApplyPushPullPack, store invariants (C06) after every request, at the end every client syncs to quiescence, then all subscribed clients of a key must equal each other, snapshot.Manager.GetLatestDatatype() and a replay of the stored log; the remote-operation handlers' records give exactly-once / log order / never-own; every fourth scenario runs through the SDK's own Client.Sync() over real grpc with several datatypes per message and shuffled response packs, every second of those with responses lost on the way back (the request was served, Sync() returns an RPC error); " +
+		Rule: "seeded scenarios over the real service (direct mode): 1-6 MANUALLY clients, 1-3 datatypes out of a pool of keys and types, entry modes create / subscribe / subscribe-or-create, steps {open a datatype (late join), local operation, committed or aborted user transaction (an abort rolls the datatype back to its recorded base and replays), Sync of one client with all its datatypes in one message}; monitors: checkpoint monotonicity after every ApplyPushPullPack, store invariants (C06) after every request, at the end every client syncs to quiescence, then all subscribed clients of a key must equal each other, snapshot.Manager.GetLatestDatatype() and a replay of the stored log; the remote-operation handlers' records give exactly-once / log order / never-own; every fourth scenario runs through the SDK's own Client.Sync() over real grpc with several datatypes per message and shuffled response packs, every second of those with responses lost on the way back (the request was served, Sync() returns an RPC error); " +
 			"non-trivial = at least two clients pushed to the same datatype between two syncs of a third client; distinct = hash of the step script",
 		Assumptions: []string{
 			"MongoDB and the MQTT broker are the in-memory stand-ins (fakemongo, fakemqtt): faithful for the command subset orda issues",
@@ -83,8 +83,12 @@ func (s *svcScenario) step() (string, string) {
 			for i := 0; i < 1+r.Intn(3); i++ {
 				body = append(body, w.g.Op(wrapRep(d)))
 			}
-			w.c.Step("%s/%s transaction %s", cl.Alias, d.Key, crdt.JS(body))
-			runTx(wrapRep(d), body, nil, false)
+			var fail error
+			if r.Intn(2) == 0 {
+				fail = errBoom // aborted: the datatype rolls back (restore from its own export + replay)
+			}
+			w.c.Step("%s/%s transaction %s aborted=%v", cl.Alias, d.Key, crdt.JS(body), fail != nil)
+			runTx(wrapRep(d), body, fail, false)
 		}
 	default:
 		// which datatypes push in this request
